@@ -154,7 +154,7 @@ def strip_key(cfg):
 def sweep_block(cfg):
     variables = {}
     for v, key in cfg["vars"]:
-        variables[v] = {"from_context": key} if key is not None else {"values": [1.0, 2.0]}
+        variables[v] = {"from_context": key} if key is not None else {"values": list(cfg.get("values", [1.0, 2.0]))}
     first = cfg["vars"][0][0] if cfg["vars"] else "t"
     d = {"parameters": {b: "2 * %s" % first for b in cfg["bound"]}, "variables": variables}
     if cfg["coll"] is not None:
@@ -661,6 +661,83 @@ def concurrent_registration_oracle(ck):
     return {"stop_points": points, "lost": len(lost)}
 
 
+def unusual_values_and_histories_oracle(ck, cfgs):
+    """Direct oracles: (a) generated sweep classes whose explicit value list holds unusual but legal values (non-finite floats,
+    mixed numeric types, one element, many elements); (b) a valid node built from a class object AFTER a configuration of the
+    same class object was rejected (unknown parameter) -- the class must still satisfy the contracts."""
+    import copy
+    from semantiva.pipeline.nodes._pipeline_node_factory import _pipeline_node_factory
+    from semantiva.registry import resolve_symbol
+    from semantiva.data_processors.data_slicer_factory import slice as mkslice
+    n = 0
+    value_sets = [[0.5, 1.0, float("inf")], [float("nan"), 1.0], [1, True, 2.5], [3.0], [float(i) for i in range(40)], [-0.0, 0.0], [1e308, -1e308, 5e-324]]
+    sweeps = [c for c in cfgs if strip_key(c)[0].get("t") == "sweep" and any(k is None for _, k in strip_key(c)[0]["vars"])][:12]
+    for ci, c in enumerate(sweeps):
+        for vs in (value_sets if ci < 3 else value_sets[:2]):
+            c2 = copy.deepcopy(c)
+            strip_key(c2)[0]["values"] = vs
+            rep = {"kind": "unusual-values", "config": json.loads(json.dumps(c2, default=repr)), "values": [repr(v) for v in vs[:6]]}
+            try:
+                node = build_node(c2)
+            except Exception:  # noqa - the factories reject these values: nothing generated
+                continue
+            n += 1
+            flagged = False
+            for which, k in (("node", type(node)), ("processor", type(node.processor))):
+                try:
+                    errs = [d for d in diags_of(k) if d[1] == "error"]
+                    k.get_metadata()
+                except Exception as ex:  # noqa
+                    ck.fail_input("C16:generated-class-metadata-raises:%s:unusual-sweep-values" % factory_kind(c2),
+                                  "%s class generated for sweep values %r: get_metadata / validate_component raises %r" % (which, vs[:4], ex), rep)
+                    flagged = True
+                    break
+                if errs:
+                    ck.fail_input("C16:%s:%s:unusual-sweep-values" % (errs[0][0], factory_kind(c2)),
+                                  "%s class generated for sweep values %r fails %s (error)" % (which, vs[:4], [e[0] for e in errs]), rep)
+                    flagged = True
+                    break
+            if flagged:
+                continue
+            try:
+                o = observe(c2)
+            except Exception as ex:  # noqa
+                ck.corr_problem("unusual-values oracle could not observe a configuration", repr(ex))
+                continue
+            if not o["ok"]:
+                continue
+            for sig, what in oracle(c2, o):
+                ck.fail_input(sig + ":unusual-sweep-values", what + " (sweep values %r)" % (vs[:4],),
+                              {"kind": "unusual-values", "config": json.loads(json.dumps(c2, default=repr)), "values": [repr(v) for v in vs[:6]]})
+                break
+    # (b) rejected build, then a valid build of the same class object
+    specs = [("plain operation", resolve_symbol("FloatMultiplyOperation"), {}), ("plain probe", resolve_symbol("FloatCollectValueProbe"), {"context_key": "k"}),
+             ("slicer wrapper", mkslice(resolve_symbol("FloatMultiplyOperation"), resolve_symbol("FloatDataCollection")), {}),
+             ("plain source", resolve_symbol("FloatValueDataSource"), {}), ("plain sink", resolve_symbol("FloatMockDataSink"), {})]
+    for name, cls, extra in specs:
+        try:
+            _pipeline_node_factory(dict({"processor": cls, "parameters": {"no_such_parameter_xyz": 1}}, **extra))
+            rejected = False
+        except Exception:  # noqa
+            rejected = True
+        try:
+            node = _pipeline_node_factory(dict({"processor": cls}, **extra))
+        except Exception as ex:  # noqa
+            ck.fail_input("C16:valid-build-fails-after-a-rejected-build:%s" % name.replace(" ", "-"),
+                          "a valid node of %s cannot be built after a configuration of the same class was rejected: %r" % (name, ex),
+                          {"kind": "rejected-then-valid", "class": name})
+            continue
+        n += 1
+        for which, k in (("node", type(node)), ("processor", type(node.processor))):
+            errs = [d for d in diags_of(k) if d[1] == "error"]
+            if errs:
+                ck.fail_input("C16:%s:after-rejected-build:%s" % (errs[0][0], name.replace(" ", "-")),
+                              "%s class of a valid %s node fails %s after a configuration of the same class object was rejected (rejected: %s)"
+                              % (which, name, [e[0] for e in errs], rejected), {"kind": "rejected-then-valid", "class": name})
+                break
+    return {"runs": n}
+
+
 def run(ck):
     rng = random.Random(ck.seed * 15485863 + 16)
     thorough = ck.tier == "thorough"
@@ -781,6 +858,7 @@ def run(ck):
 
     # ---------- direct oracle: classes generated concurrently all reach the registry (SVA107 registry coherence)
     ck.notes["concurrent_registration"] = concurrent_registration_oracle(ck)
+    ck.notes["unusual_values_and_histories"] = unusual_values_and_histories_oracle(ck, uniq)
 
     # ---------- direct oracles
     first = {}
